@@ -49,10 +49,13 @@ inductive Res (α : Type) where
   | crash (site : String)
   deriving DecidableEq, Repr, Inhabited
 
-abbrev Facts := List Text
+/-- the keys of the non-null facts; the real inferrer uses canonical strings (`κ = Text`) -/
+abbrev Facts (κ : Type) := List κ
+
+variable {κ : Type} [DecidableEq κ]
 
 /-- `_strip_optional_if_non_null` -/
-def strip (F : Facts) (k : Text) : Ty → Ty
+def strip (F : Facts κ) (k : κ) : Ty → Ty
   | .opt v => if F.contains k then v else .opt v
   | τ => τ
 
@@ -67,28 +70,28 @@ def constTy : Const → Ty
 def retTy (τ : Ty) : Ty := τ
 
 /-- the fact a conjunct contributes to the *following* conjuncts (`transform_and`) -/
-def andFact (key : Expr → Text) (F : Facts) : Expr → Facts
+def andFact (key : Expr → κ) (F : Facts κ) : Expr → Facts κ
   | .isNotNone x => key x :: F
   | _ => F
 
 /-- the fact a disjunct contributes to the *following* disjuncts (`transform_or`) -/
-def orFact (key : Expr → Text) (F : Facts) : Expr → Facts
+def orFact (key : Expr → κ) (F : Facts κ) : Expr → Facts κ
   | .isNone x => key x :: F
   | _ => F
 
 /-- facts of all the `is not None` conjuncts (`transform_implication`, antecedent `And`) -/
-def andFacts (key : Expr → Text) (F : Facts) : List Expr → Facts
+def andFacts (key : Expr → κ) (F : Facts κ) : List Expr → Facts κ
   | [] => F
   | e :: es => andFacts key (andFact key F e) es
 
 /-- the facts under which the consequent is inferred (`transform_implication`) -/
-def implFacts (key : Expr → Text) (F : Facts) : Expr → Facts
+def implFacts (key : Expr → κ) (F : Facts κ) : Expr → Facts κ
   | .isNotNone x => key x :: F
   | .and vs => andFacts key F vs
   | _ => F  -- "We do not know how to infer any non-nullness in this case."
 
 /-- `transform_name` -/
-def inferName (key : Expr → Text) (Γ : TEnv) (F : Facts) (x : Text) : Res Ty :=
+def inferName (key : Expr → κ) (Γ : TEnv) (F : Facts κ) (x : Text) : Res Ty :=
   match Γ.find x with
   | none => .err [.unknownName]
   | some τ => .ok (strip F (key (.name x)) τ)
@@ -106,7 +109,7 @@ def isFloatTy : Ty → Bool
 
 /-- `transform_member` after the instance has been transformed (`ri`); `k` is the key of the
 member node itself -/
-def memberRes (Γ : TEnv) (F : Facts) (k : Text) (n : Text) (ri : Res Ty) : Res Ty :=
+def memberRes (Γ : TEnv) (F : Facts κ) (k : κ) (n : Text) (ri : Res Ty) : Res Ty :=
   match ri with
   | .ok (.our c) =>
     match Γ.decls.findOur c with
@@ -158,7 +161,7 @@ def errsOf : Res Unit → List Err
   | _ => []
 
 mutual
-  def infer (key : Expr → Text) (Γ : TEnv) (F : Facts) : Expr → Res Ty
+  def infer (key : Expr → κ) (Γ : TEnv) (F : Facts κ) : Expr → Res Ty
     | .member i n => memberRes Γ F (key (.member i n)) n (infer key Γ F i)
     | .index c i =>
       match infer key Γ F c with
@@ -307,7 +310,7 @@ mutual
       | .err es => .err es
       | .crash s => .crash s
   /-- the loop variable and its type -/
-  def inferGen (key : Expr → Text) (Γ : TEnv) (F : Facts) : Gen → Res (Text × Ty)
+  def inferGen (key : Expr → κ) (Γ : TEnv) (F : Facts κ) : Gen → Res (Text × Ty)
     | .forEach x it =>
       if (Γ.find x).isSome then .err [.varAlreadyDefined] else
       match infer key Γ F it with
@@ -333,7 +336,7 @@ mutual
       | .crash s => .crash s
   /-- the conjuncts of `transform_and`, left to right, each `is not None` conjunct adding its
   fact for the conjuncts after it -/
-  def inferAnd (key : Expr → Text) (Γ : TEnv) (F : Facts) : List Expr → Res Unit
+  def inferAnd (key : Expr → κ) (Γ : TEnv) (F : Facts κ) : List Expr → Res Unit
     | [] => .ok ()
     | e :: es =>
       match infer key Γ F e with
@@ -347,7 +350,7 @@ mutual
       | .err xs => .err xs
       | .crash s => .crash s
   /-- the disjuncts of `transform_or`; each `is None` disjunct adds its fact for the rest -/
-  def inferOr (key : Expr → Text) (Γ : TEnv) (F : Facts) : List Expr → Res Unit
+  def inferOr (key : Expr → κ) (Γ : TEnv) (F : Facts κ) : List Expr → Res Unit
     | [] => .ok ()
     | e :: es =>
       match infer key Γ F e with
@@ -361,7 +364,7 @@ mutual
       | .err xs => .err xs
       | .crash s => .crash s
   /-- all the arguments are transformed, the errors accumulate; their types are dropped -/
-  def inferArgs (key : Expr → Text) (Γ : TEnv) (F : Facts) : List Expr → Res Unit
+  def inferArgs (key : Expr → κ) (Γ : TEnv) (F : Facts κ) : List Expr → Res Unit
     | [] => .ok ()
     | e :: es =>
       match infer key Γ F e with
@@ -373,7 +376,7 @@ mutual
         | .crash s => .crash s
       | .ok _ => inferArgs key Γ F es
   /-- `transform_joined_str` / `transform_formatted_value` -/
-  def inferParts (key : Expr → Text) (Γ : TEnv) (F : Facts) : List JPart → Res Unit
+  def inferParts (key : Expr → κ) (Γ : TEnv) (F : Facts κ) : List JPart → Res Unit
     | [] => .ok ()
     | .lit _ :: ps => inferParts key Γ F ps
     | .fv e :: ps =>
